@@ -1,6 +1,7 @@
 //! C17 — album art is reassembled byte-exactly for any size and chunk limit.
 
 use proptest::prelude::*;
+use serde::{Deserialize, Serialize};
 
 use crate::{
     core::{CaseResult, Property, RandomPart, Tier, B},
@@ -279,6 +280,45 @@ fn strategy_plain(_tier: Tier) -> BoxedStrategy<Script> {
         .boxed()
 }
 
+/// A transfer that needs more requests than fit a 16-bit counter.
+#[derive(Debug, Clone, Serialize, Deserialize)]
+pub struct ManyChunks {
+    pub bytes: usize,
+    pub limit: usize,
+    pub cover: bool,
+}
+
+fn many_chunks_part() -> Box<dyn crate::core::Part> {
+    Box::new(crate::core::ExhaustivePart {
+        name: "many_chunks",
+        rule: "one album_art call for a picture of 66 000 bytes served 1 byte per reply (66 000 requests; thorough: also 140 000 bytes at 2 per reply from the cover file after an unknown-command fallback, and 300 000 bytes at 4): bytes, MIME type and request log as in 'picture_server'. non-trivial = every case",
+        space: Box::new(|t: Tier| {
+            let mut v = vec![ManyChunks { bytes: 66_000, limit: 1, cover: false }];
+            if t == Tier::Thorough {
+                v.push(ManyChunks { bytes: 140_000, limit: 2, cover: true });
+                v.push(ManyChunks { bytes: 300_000, limit: 4, cover: false });
+            }
+            Box::new(v.into_iter())
+        }),
+        check: Box::new(|m: &ManyChunks| {
+            let pic = sim::Pic { bytes: crate::core::B((0..m.bytes).map(|i| (i % 251) as u8).collect()), mime: Some("image/png".into()) };
+            let mut s = Script::new(vec![Step::Issue { caller: 7, req: Req::AlbumArt("dir/song 1.mp3".into()) }]);
+            s.picture = Some(PictureServer {
+                embedded: if m.cover { sim::PicSource::UnknownCommand } else { sim::PicSource::Present(pic.clone()) },
+                cover: if m.cover { sim::PicSource::Present(sim::Pic { mime: None, ..pic }) } else { sim::PicSource::Absent },
+                limit: m.limit,
+                pattern: vec![],
+                fail_at: None,
+            });
+            let mut r = check(&s);
+            r.nontrivial();
+            r.classes.clear();
+            r.class("more_than_65535_requests");
+            r
+        }),
+    })
+}
+
 pub fn property(_tier: Tier) -> Property {
     Property {
         id: "C17",
@@ -289,7 +329,7 @@ pub fn property(_tier: Tier) -> Property {
             cases: (40_000, 5_000_000),
             strategy: Box::new(strategy),
             check: Box::new(check),
-        })],
+        }), many_chunks_part()],
         assumptions: vec![
             "the picture server follows the protocol reference: size/type/binary per chunk, 'type:' only on readpicture, at most L bytes per reply, an empty reply when there is no picture",
             "as C01",
